@@ -1,3 +1,4 @@
+\* exhaustive (thorough tier): narrow leaves, nesting depth 3
 SPECIFICATION Spec
 CONSTANTS
   Ints <- DeepInts
@@ -8,4 +9,5 @@ CONSTANTS
   MaxDepth = 3
   MaxArr = 3
   MaxPairs = 2
-INVARIANTS TypeOK RoundTrip SelfDelimiting NoItemIsAPrefix PrefixFree CanonicalEncoding ReEncode HeadIsShortest WrapIsExact
+  AllowWrap = TRUE
+INVARIANTS TypeOK RoundTrip SelfDelimiting NoItemIsAPrefix PrefixFree CanonicalEncoding ReEncode HeadIsShortest WrapIsExact 
